@@ -51,6 +51,29 @@ def basic_case(draw, tier="quick"):
             "turns": draw(st.sampled_from([0, 0, 0, 3, 400, 2000])), "frac": draw(st.integers(-7, 7))}
 
 
+def inverse_and_dual_action(ck, t, site, v):
+    """every constructed transformation: t.inverse() is the matrix inverse, and hyperplanes (which are moved by the inverse
+    transpose) go where the points of them go: t * h == M^-T h"""
+    n = t.array.shape[-1]
+    M = np.asarray(t.array, float)
+    if abs(np.linalg.det(M)) < 1e-9:
+        return
+    inv, f = call(site + ":inverse", t.inverse)
+    if f:
+        ck.add(f)
+    else:
+        ck.check(C.peq_all(inv.array @ M, np.eye(n), 2, 1e-9), site + ":inverse*t=identity", (inv.array @ M).tolist())
+    h = np.array([float(x) for x in (list(v[10:10 + n - 1]) + [v[5] or 1])])
+    if not np.any(h[:-1]):
+        h[0] = 1.0
+    H = (Line if n == 3 else Plane)(h)
+    r, f = call(site + ":hyperplane", lambda: t * H)
+    if f:
+        ck.add(f)
+    else:
+        ck.check(C.peq_all(r.array, np.linalg.inv(M).T @ h, 1, 1e-9), site + ":t*hyperplane=M^-T.h", (np.asarray(r.array).tolist(), (np.linalg.inv(M).T @ h).tolist()))
+
+
 def run_basic(c):
     what, v = c["what"], c["v"]
     ck = Checker()
@@ -93,6 +116,11 @@ def run_basic(c):
             return ck.result() + [z for z in (f, g) if z]
         ck.check(C.peq_all(u.array, w.array, 2, 1e-9), "rotation2:additive")
         ck.check(C.peq_all(t.inverse().array, rotation(-a).array, 2, 1e-9), "rotation2:inverse")
+        about, f = call("rotation about a point", lambda: translation(v[2], v[3]) * t * translation(-v[2], -v[3]))
+        if f:
+            ck.add(f)
+        else:
+            inverse_and_dual_action(ck, about, "rotation2:about-a-point", v)
         return ck.result()
     if what == "rotation3":
         # angles of many turns and not only multiples of 15 degrees: k*pi/12 + j/16 + 2*pi*turns (the reference uses the same float)
@@ -175,6 +203,12 @@ def run_basic(c):
             ck.add(f)
         else:
             ck.check(C.peq_all(rr.array, np.eye(d + 1), 2, 1e-9), site + ":involution")
+        inverse_and_dual_action(ck, t, site, v)
+        fixed, f = call(site + ":mirror-image", lambda: t * h)
+        if f:
+            ck.add(f)
+        else:
+            ck.check(C.peq_all(fixed.array, h.array, 1, 1e-9), site + ":fixes-the-mirror-as-a-hyperplane", (np.asarray(fixed.array).tolist(), np.asarray(h.array).tolist()))
         # hyperplane at infinity
         hinf = (Line if d == 2 else Plane)(np.append(np.zeros(d), 1.0) * s)
         ti, f = call("reflection(infinity)", reflection, hinf)
@@ -203,6 +237,7 @@ def run_basic(c):
             ck.add(f)
         else:
             ck.check(np.allclose(t3.array @ np.append(p, 1.0), np.append(M @ p, 1.0)), "affine_transform:matrix-only")
+        inverse_and_dual_action(ck, t, "affine_transform", v)
         return ck.result()
     if what == "identity":
         d = 2 + (v[15] % 2)
